@@ -607,9 +607,17 @@ def md5_compute(eng, st, site, func, target, args, dty):
 @stub(r"^phf::Map::<K, V>::get$|^phf::map::Map::<K, V>::get$")
 def phf_get(eng, st, site, func, target, args, dty):
     key, _ = deref(eng, st, args[1], 2)
+    static = None
+    m = args[0]
+    for _ in range(3):
+        if isinstance(m, VRef):
+            if isinstance(m.cell, tuple) and m.cell and m.cell[0] == "static":
+                static = m.cell[1]
+                break
+            m = eng.load(st, m.cell, m.path)
     out = []
     s_none = st.fork()
-    s_none.emit(("phf_get", key, False, site_info(site)))
+    s_none.emit(("phf_get", key, False, site_info(site), static))
     out.append((s_none, mk_option(eng, dty, False)))
     # Some(&V): V's type from the Option<&V> return type
     vty = None
@@ -620,8 +628,8 @@ def phf_get(eng, st, site, func, target, args, dty):
             if rt["k"] == "ref":
                 vty = rt["to"]
     cell = ("phf", eng.fresh("v"))
-    st.cells[cell] = eng.symval(st, vty, "phf(%r)" % (key.lin if isinstance(key, VInt) else key,)) if vty is not None else VUnknown(None, cell[1])
-    st.emit(("phf_get", key, True, site_info(site)))
+    st.cells[cell] = eng.symval(st, vty, "phf[%s](%r)" % (static, key.lin if isinstance(key, VInt) else key,)) if vty is not None else VUnknown(None, cell[1])
+    st.emit(("phf_get", key, True, site_info(site), static))
     out.append((st, mk_option(eng, dty, True, VRef(cell, (), False))))
     return out
 
